@@ -137,6 +137,7 @@ def run_tlc(module, workdir, tag="run", workers=None, timeout=3600, env=None, co
     res.wall = time.time() - t0
     shutil.rmtree(meta, ignore_errors=True)
     errors = []
+    pending = None
     with open(out_path, errors="replace") as f:
         for line in f:
             if line.startswith('"{') or line.startswith('"['):
@@ -149,8 +150,17 @@ def run_tlc(module, workdir, tag="run", workers=None, timeout=3600, env=None, co
                 if keep_vectors:
                     res.vectors.append(v)
                 continue
+            if pending is not None:
+                pending += " " + line.strip()
+                if pending.endswith(">>"):
+                    res.printed.append(pending)
+                    pending = None
+                continue
             if line.startswith("<<"):
-                res.printed.append(line.strip())
+                if line.strip().endswith(">>"):
+                    res.printed.append(line.strip())
+                else:
+                    pending = line.strip()      # TLC wraps long tuples over several lines
                 continue
             m = _BANNER.search(line)
             if m:
